@@ -206,3 +206,164 @@ Print Assumptions C08_attestation_equals_chain.
 Print Assumptions C08_token_info_shape.
 Print Assumptions C08_polling_forwards_at_most_once.
 Print Assumptions C08_confirmed_orphans_are_dropped.
+
+(* ================================================================== the watcher COMPOSED with the event conversion (X2) *)
+(* model.AlphPipeline runs the same watcher over events carrying their RAW fields (sdk.Val values as the node reports them, tx id
+   string, raw multicall answers) and applies ToWormholeMessage / parseAttestToken / GetTokenInfo / toMessagePublication exactly
+   where watcher.go / reobserve.go apply them; abs_* maps raw data onto the abstract identifiers of model.AlphWatcher. *)
+From Coq Require Import Strings.Byte.
+From WH Require Import lib.Bytes model.Vaa model.AlphPipeline proofs.AlphPipelineProofs.
+
+(* the abstraction commutes with every step: everything proved above about model.AlphWatcher holds for the composed watcher *)
+Theorem C08_pipeline_refines_watcher : forall c s o,
+  step (abs_cfg c) (abs_state s) (abs_op o) = (abs_state (fst (xstep c s o)), abs_out (snd (xstep c s o))).
+Proof. exact sim_step. Qed.
+
+(* END TO END, over every history of the composed watcher (any node answers, any raw field values): every message handed to the
+   signer on either path is `xjust` - its sender / target chain / sequence / nonce / level / payload are the conversion of the
+   raw fields of ONE event the node served (faithful: ToWormholeMessage(fields, tx id) = that message, sender = the configured
+   token bridge, publication = toMessagePublication(message, header of the event's block)); on re-observation the event is one
+   the node listed for the requested 32-byte hash with the governance address in the confirmed block - AND the abstraction of
+   that very message is `justified` (contract, caller, main chain, depth, hold, attestation metadata) in the step that sends it *)
+Theorem C08_pipeline_end_to_end : forall c EP HP AP ops from0, Forall (xop_ok c EP HP AP) ops ->
+  Forall (fun x => xjust c EP HP AP (fst x) (snd x) /\ justified (abs_cfg c) (EPa EP) HP (APa AP) (abs_op (fst x)) (abs_fwd (snd x)))
+         (xall_fwds c (xinit from0) ops).
+Proof. intros c EP HP AP ops from0 H. apply pipeline_end_to_end; [apply XInv_init|exact H]. Qed.
+
+Theorem C08_pipeline_end_to_end_from_any_good_state : forall c EP HP AP ops s, XInv EP HP AP s -> Forall (xop_ok c EP HP AP) ops ->
+  Forall (fun x => xjust c EP HP AP (fst x) (snd x) /\ justified (abs_cfg c) (EPa EP) HP (APa AP) (abs_op (fst x)) (abs_fwd (snd x)))
+         (xall_fwds c s ops).
+Proof. exact pipeline_end_to_end. Qed.
+
+(* what `faithful` says field by field: the six raw fields have the right variants, and the message carries exactly the values
+   they denote (hex / decimal), 32-byte sender = token bridge, Alephium chain id, the hash of the tx id string, and the block
+   timestamp split into whole seconds and the millisecond remainder *)
+Theorem C08_pipeline_message_fields : forall c EP HP AP f, faithful c EP HP AP f -> 0 <= h_ts (xf_hdr f) ->
+  let m := xf_pub f in
+  exists s0 s1 s2 s3 s4 s5 nonce,
+    x_fields (xf_ev f) = [C.VByteVec Ty.bytevec s0; C.VU256 Ty.u256 s1; C.VU256 Ty.u256 s2;
+                          C.VByteVec Ty.bytevec s3; C.VByteVec Ty.bytevec s4; C.VU256 Ty.u256 s5] /\
+    C.hex_decode s0 = Some (m_eaddr m) /\ length (m_eaddr m) = 32%nat /\ m_eaddr m = xc_bridge c /\
+    C.parse_dec s1 = Some (m_tchain m) /\ 0 <= m_tchain m <= 65535 /\
+    C.parse_dec s2 = Some (m_seq m) /\ 0 <= m_seq m < 18446744073709551616 /\
+    C.hex_decode s3 = Some nonce /\ length nonce = 4%nat /\ m_nonce m = unbe nonce /\
+    C.hex_decode s4 = Some (m_payload m) /\
+    C.parse_dec s5 = Some (Vaa.m_cl m) /\ 0 <= Vaa.m_cl m <= 255 /\
+    m_echain m = 255 /\ m_tx m = C.hex_to_hash (x_txid (xf_ev f)) /\
+    m_ts m = h_ts (xf_hdr f) / 1000 /\ m_tns m = (h_ts (xf_hdr f) mod 1000) * 1000000.
+Proof. exact faithful_message_fields. Qed.
+
+(* re-observation: the message's tx hash is the requested hash *)
+Theorem C08_pipeline_reobserved_tx_hash : forall c EP HP AP r f, faithful c EP HP AP f -> reobs_from c r f -> m_tx (xf_pub f) = xr_txhash r.
+Proof. exact reobserved_tx_hash. Qed.
+
+(* attestations: the forwarded payload decodes to exactly what GetTokenInfo made of an answer of the node; and what it accepts *)
+Theorem C08_pipeline_attestation_equals_chain : forall c EP HP AP f, faithful c EP HP AP f -> xis_attest (xf_msg f) = true ->
+  exists t a, C.parse_attest_token (m_payload (xf_pub f)) = C.COk t /\ xf_chain f = Some t /\ AP a /\ xget_token_info (C.t_id t) a = XTiOk t.
+Proof. exact forwarded_attestation_equals_chain. Qed.
+
+Theorem C08_pipeline_token_info_shape : forall id a t, xget_token_info id a = XTiOk t ->
+  (id = alph_token_id /\ t = native_info) \/
+  (exists vs vn vd sb nb d, a = XMcRes [XOk [vs]; XOk [vn]; XOk [vd]] /\ C.to_bytevec vs = C.COk sb /\ C.to_bytevec vn = C.COk nb /\ C.to_uint8 vd = C.COk d /\
+     t = {| C.t_id := id; C.t_decimals := d; C.t_symbol := C.bytes_to_string sb; C.t_name := C.bytes_to_string nb |}).
+Proof. exact xget_token_info_spec. Qed.
+
+(* at most once through the composition *)
+Theorem C08_pipeline_forwards_at_most_once : forall c (p : uevent -> bool) ops from0,
+  let n := fun l => length (filter (fun u => p (abs_u u)) l) in
+  (n (xtick_fwds c (xinit from0) ops) + n (xheld (xfinal c (xinit from0) ops)) <= n (xbatches c (xinit from0) ops))%nat.
+Proof. exact pipeline_at_most_once. Qed.
+
+(* ---- the hypotheses are satisfiable: a concrete raw history *)
+Definition px_bridge : bytes := repeat x07 32.
+Definition px_c : xcfg := {| xc_gov := 10; xc_bridge := px_bridge; xc_mainnet := true |}.
+Definition px_txhash : bytes := repeat xaa 32.
+Definition px_nonce : bytes := [x00; x00; x01; x02].
+Definition px_ev (uid : Z) (fields : list C.val) : xevent :=
+  {| x_uid := uid; x_block := 5; x_txid := C.to_hex px_txhash; x_index := 0; x_fields := fields |}.
+Definition px_tokid : bytes := repeat x09 31 ++ [x01].
+Definition px_attest : bytes :=
+  match C.attest_payload px_tokid 255 8 (repeat x00 28 ++ map byte_of_Z [85; 83; 68; 84]) (repeat x00 26 ++ map byte_of_Z [84; 101; 116; 104; 101; 114]) px_nonce with Some p => p | None => [] end.
+Definition px_e1 : xevent := px_ev 1 (C.event_fields px_bridge 2 18446744073709551615 px_nonce [x01; x09] 3).      (* transfer, sequence 2^64-1 *)
+Definition px_e2 : xevent := px_ev 2 (C.event_fields (repeat x08 32) 2 8 px_nonce [x01] 0).                         (* foreign sender *)
+Definition px_e3 : xevent := px_ev 3 (C.event_fields px_bridge 2 9 px_nonce [x01] 256).                             (* level 256: does not fit *)
+Definition px_e4 : xevent := px_ev 4 (C.event_fields px_bridge 0 10 px_nonce px_attest 1).                          (* attestation *)
+Definition px_e5 : xevent := px_ev 5 (C.event_fields px_bridge 65536 11 px_nonce [x01] 1).                          (* target chain 65536: does not fit *)
+Definition px_ans : xmc_ans := XMcRes [XOk [C.vbytes (map byte_of_Z [85; 83; 68; 84])]; XOk [C.vbytes (map byte_of_Z [84; 101; 116; 104; 101; 114; 0; 0])]; XOk [C.vu256 8]].
+Definition px_log : list xevent := [px_e1; px_e2; px_e3; px_e4; px_e5].
+Definition px_hdr : header := {| h_ts := 1663000000123; h_height := 100 |}.
+Definition px_hd : Z -> option header := fun b => if b =? 5 then Some px_hdr else None.
+Definition px_r : xreobs_in :=
+  {| xr_chain := 255; xr_txhash := px_txhash; xr_status := Some (Some 5);
+     xr_events := Some [ {| xt_addr := 11; xt_ev := px_e1 |}; {| xt_addr := 10; xt_ev := px_e1 |}; {| xt_addr := 10; xt_ev := px_e2 |} ];
+     xr_hd := px_hd; xr_tok := fun _ => px_ans; xr_mc := Some true; xr_height := Some 120; xr_now := 1663000000123 + 205 * 16000 |}.
+Definition px_ops : list xop :=
+  [ XPoll (Some 5) (fun _ _ => XPage px_log 5) (fun _ => px_ans); XDeliver;
+    XTick 120 (1663000000123 + 205 * 16000 - 1) (fun _ => Some true) px_hd;
+    XTick 120 (1663000000123 + 205 * 16000) (fun _ => Some true) px_hd; XReobs px_r ].
+Definition px_EP (e : xevent) : Prop := x_block e = 5.
+Definition px_HP (b : Z) (h : header) : Prop := b = 5 /\ h = px_hdr.
+Definition px_AP (a : xmc_ans) : Prop := a = px_ans.
+
+(* the batch keeps events 1, 2, 4 (3 and 5 do not fit: no message, the page is not aborted); the attestation is forwarded at the
+   first tick, the transfer at the second (205-interval floor), never the foreign event; the re-observation forwards event 1 once
+   (not the look-alike of contract 11, not the foreign sender); every forwarded message carries the event's values: sequence
+   2^64-1, level 3, target chain 2, nonce 258, 1663000000 s + 123 ms, chain id 255, the requested tx hash *)
+Example C08_pipeline_hypotheses_satisfiable :
+  Forall (xop_ok px_c px_EP px_HP px_AP) px_ops /\
+  map (fun x => (map (fun u => x_uid (xu_ev u)) (xo_batch x),
+                 map (fun f => let m := xf_pub f in (x_uid (xf_ev f), m_seq m, Vaa.m_cl m, m_tchain m, m_nonce m, m_ts m, m_tns m, m_echain m, bytes_eqb (m_tx m) px_txhash, bytes_eqb (m_eaddr m) px_bridge)) (xo_fwd x)))
+      (fst (xrun px_c (xinit 0) px_ops))
+  = [ ([1; 2; 4], []); ([], []); ([], [(4, 10, 1, 0, 258, 1663000000, 123000000, 255, true, true)]);
+      ([], [(1, 18446744073709551615, 3, 2, 258, 1663000000, 123000000, 255, true, true)]);
+      ([], [(1, 18446744073709551615, 3, 2, 258, 1663000000, 123000000, 255, true, true)]) ].
+Proof.
+  split; [|vm_compute; reflexivity].
+  assert (HH : forall b h, px_hd b = Some h -> px_HP b h).
+  { intros b h. unfold px_hd. destruct (b =? 5) eqn:E; [|discriminate]. intro H. injection H as <-. apply Z.eqb_eq in E. split; auto. }
+  unfold px_ops. repeat apply Forall_cons; try apply Forall_nil; try exact I; try exact HH.
+  - split; [|intro i; reflexivity]. intros k s evs next H. injection H as <- <-. repeat constructor.
+  - split; [|split; [exact HH|intro i; reflexivity]]. intros evs H. cbn [xr_events px_r] in H. injection H as <-.
+    repeat constructor; intros _; reflexivity.
+Qed.
+
+(* the forwarded transfer of that history is `faithful`, its header timestamp is non-negative (hypotheses of
+   C08_pipeline_message_fields), and the re-observed one satisfies reobs_from (hypothesis of C08_pipeline_reobserved_tx_hash) *)
+Example C08_pipeline_faithful_instances :
+  exists f g, In (XTick 120 (1663000000123 + 205 * 16000) (fun _ => Some true) px_hd, f) (xall_fwds px_c (xinit 0) px_ops) /\
+              In (XReobs px_r, g) (xall_fwds px_c (xinit 0) px_ops) /\
+    faithful px_c px_EP px_HP px_AP f /\ 0 <= h_ts (xf_hdr f) /\ x_uid (xf_ev f) = 1 /\
+    faithful px_c px_EP px_HP px_AP g /\ reobs_from px_c px_r g /\ m_tx (xf_pub g) = px_txhash.
+Proof.
+  destruct C08_pipeline_hypotheses_satisfiable as [Hok _].
+  pose proof (C08_pipeline_end_to_end px_c px_EP px_HP px_AP px_ops 0 Hok) as J.
+  remember (xall_fwds px_c (xinit 0) px_ops) as l eqn:E.
+  assert (E' : map (fun x => x_uid (xf_ev (snd x))) l = [4; 1; 1]) by (subst l; vm_compute; reflexivity).
+  assert (E3 : map (fun x => h_ts (xf_hdr (snd x))) l = [1663000000123; 1663000000123; 1663000000123]) by (subst l; vm_compute; reflexivity).
+  assert (E2 : map fst l = [nth 2 px_ops XDeliver; nth 3 px_ops XDeliver; nth 4 px_ops XDeliver]) by (subst l; reflexivity).
+  destruct l as [|[o0 f0] [|[o1 f] [|[o2 g] [|x t]]]]; try discriminate E'. cbn [map fst snd] in E', E2, E3.
+  pose proof (f_equal (fun z => nth 1 z 0) E') as U1. pose proof (f_equal (fun z => nth 1 z 0) E3) as T1. cbn [nth] in U1, T1.
+  pose proof (f_equal (fun z => nth 0 z XDeliver) E2) as O0. pose proof (f_equal (fun z => nth 1 z XDeliver) E2) as O1.
+  pose proof (f_equal (fun z => nth 2 z XDeliver) E2) as O2. cbn [nth px_ops] in O0, O1, O2. subst o0 o1 o2.
+  inversion J as [|x0 t0 _ J1]; subst. inversion J1 as [|x1 t1 [[Ff _] _] J2]; subst. inversion J2 as [|x2 t2 [[Fg Rg] _] _]; subst. cbn [fst snd] in *.
+  exists f, g.
+  split; [right; left; reflexivity|]. split; [right; right; left; reflexivity|].
+  split; [exact Ff|]. split; [rewrite T1; lia|]. split; [exact U1|]. split; [exact Fg|]. split; [exact Rg|].
+  change px_txhash with (xr_txhash px_r). eapply C08_pipeline_reobserved_tx_hash; eassumption.
+Qed.
+
+(* an attestation instance: the forwarded attestation's payload decodes to the node's answer (USDT / Tether / 8 decimals) *)
+Example C08_pipeline_attestation_instance :
+  exists f, In f (xo_fwd (snd (xstep px_c (xfinal px_c (xinit 0) (firstn 2 px_ops)) (nth 2 px_ops XDeliver)))) /\ xis_attest (xf_msg f) = true /\
+    xf_chain f = Some {| C.t_id := px_tokid; C.t_decimals := 8; C.t_symbol := map byte_of_Z [85; 83; 68; 84]; C.t_name := map byte_of_Z [84; 101; 116; 104; 101; 114] |} /\
+    xget_token_info px_tokid px_ans = XTiOk {| C.t_id := px_tokid; C.t_decimals := 8; C.t_symbol := map byte_of_Z [85; 83; 68; 84]; C.t_name := map byte_of_Z [84; 101; 116; 104; 101; 114] |}.
+Proof. eexists. split; [vm_compute; left; reflexivity|]. repeat split; vm_compute; reflexivity. Qed.
+
+Print Assumptions C08_pipeline_refines_watcher.
+Print Assumptions C08_pipeline_end_to_end.
+Print Assumptions C08_pipeline_end_to_end_from_any_good_state.
+Print Assumptions C08_pipeline_message_fields.
+Print Assumptions C08_pipeline_reobserved_tx_hash.
+Print Assumptions C08_pipeline_attestation_equals_chain.
+Print Assumptions C08_pipeline_token_info_shape.
+Print Assumptions C08_pipeline_forwards_at_most_once.
